@@ -1453,7 +1453,7 @@ class CCodeGenerator:
         ftyp = expr.callee.typ.element_type
         assert isinstance(ftyp, types.FunctionType)
 
-        ir_arguments, rval_alloc = self.prepare_arguments(ftyp, expr.args)
+        ir_arguments, rval_ptr = self.prepare_arguments(ftyp, expr.args)
 
         callee = self.gen_expr(expr.callee, rvalue=True)
 
@@ -1463,7 +1463,9 @@ class CCodeGenerator:
             value = None
         elif ftyp.return_type.is_struct:
             self.emit(ir.ProcedureCall(callee, ir_arguments))
-            value = rval_alloc
+            # A call which returns a struct is handled as an lvalue (see
+            # semantics), so its value is the address of the result:
+            value = rval_ptr
         else:
             ir_typ = self.get_ir_type(expr.typ)
             value = self.emit(
@@ -1493,7 +1495,7 @@ class CCodeGenerator:
             rval_ptr = self.emit(ir.AddressOf(rval_alloc, "rval_ptr"))
             ir_arguments.append(rval_ptr)
         else:
-            rval_alloc = None
+            rval_ptr = None
 
         # Place other arguments:
         for argument in fixed_args:
@@ -1507,7 +1509,7 @@ class CCodeGenerator:
         else:
             assert not var_args
 
-        return ir_arguments, rval_alloc
+        return ir_arguments, rval_ptr
 
     def gen_fill_varargs(self, var_args):
         """Generate code to fill variable arguments.
